@@ -10,7 +10,11 @@ Contents
 * invariant principles for the reward loop `sweepRew` / `viRew`; all expected rewards stay `≥ 0`, so
   `stepRew` never raises `unbound`; the three tracked vectors keep their lengths;
 * conditioned probabilistic rows have positive weights; conditioning never fails;
-* case analysis of `solveReach` and `solve`.
+* case analysis of `solveReach` and `solve`;
+* the reward loop on node lists that are acyclic apart from absorbing states: the step at `s` reads
+  the tracked vectors only at the successors of `s`; a sweep keeps settled states settled and
+  settles every state whose successors were settled; once all states are settled the next sweep
+  reports `diff = 0`, so the loop exits within `max rank + 2` sweeps.
 -/
 import CR.Lemmas.VI
 import CR.Lemmas.Prune
@@ -658,5 +662,381 @@ theorem solveReach_viReach_terminates (g : Game K) (htl : g.tl.size = g.owners.s
   linarith
 
 end ReachPhase
+
+/-! ### the reward loop on ranked (acyclic apart from absorbing states) node lists -/
+
+section Ranked
+variable {rnd : K → Int} {o : Array Owner} {rewards : Array K} {nodes : Array (List (Tr K))}
+  {reach : Array K}
+
+/-- the three tracked values of state `j` -/
+def val (v : RewVecs K) (j : Nat) : K × K × K :=
+  (v.er.getD j 0, v.ermr.getD j 0, v.pmr.getD j 0)
+
+theorem p1_sel_mem (er : Array K) (row : List (Tr K)) :
+    ∀ (acc : K × Option (Tr K)) (t : Tr K),
+      (row.foldl (fun (acc : K × Option (Tr K)) t =>
+          if er.getD t.tgt 0 ≥ acc.1 then (er.getD t.tgt 0, some t) else acc) acc).2 = some t →
+      acc.2 = some t ∨ t ∈ row := by
+  induction row with
+  | nil => intro acc t h; exact Or.inl h
+  | cons u row ih =>
+    intro acc t h
+    rw [List.foldl_cons] at h
+    rcases ih _ t h with h1 | h1
+    · split_ifs at h1
+      · right; simp only [Option.some.injEq] at h1; subst h1; exact List.mem_cons_self
+      · left; exact h1
+    · right; exact List.mem_cons_of_mem _ h1
+
+theorem p2_sel_mem (er : Array K) (row : List (Tr K)) :
+    ∀ (acc : K × Tr K),
+      (row.foldl (fun (acc : K × Tr K) t =>
+          if er.getD t.tgt 0 ≤ acc.1 then (er.getD t.tgt 0, t) else acc) acc).2 = acc.2 ∨
+      (row.foldl (fun (acc : K × Tr K) t =>
+          if er.getD t.tgt 0 ≤ acc.1 then (er.getD t.tgt 0, t) else acc) acc).2 ∈ row := by
+  induction row with
+  | nil => intro acc; exact Or.inl rfl
+  | cons u row ih =>
+    intro acc
+    rw [List.foldl_cons]
+    rcases ih (if er.getD u.tgt 0 ≤ acc.1 then (er.getD u.tgt 0, u) else acc) with h1 | h1
+    · rw [h1]
+      split_ifs
+      · right; exact List.mem_cons_self
+      · left; rfl
+    · right; exact List.mem_cons_of_mem _ h1
+
+/-- the step at `s` reads the tracked vectors only at the successors of `s` -/
+theorem stepRew_congr (s : Nat) (v w : RewVecs K)
+    (h : ∀ t ∈ nodes.getD s [], val v t.tgt = val w t.tgt) :
+    stepRew rnd o rewards nodes reach v s = stepRew rnd o rewards nodes reach w s := by
+  have her : ∀ t ∈ nodes.getD s [], v.er.getD t.tgt 0 = w.er.getD t.tgt 0 :=
+    fun t ht => congrArg (·.1) (h t ht)
+  have hermr : ∀ t ∈ nodes.getD s [], v.ermr.getD t.tgt 0 = w.ermr.getD t.tgt 0 :=
+    fun t ht => congrArg (·.2.1) (h t ht)
+  have hpmr : ∀ t ∈ nodes.getD s [], v.pmr.getD t.tgt 0 = w.pmr.getD t.tgt 0 :=
+    fun t ht => congrArg (·.2.2) (h t ht)
+  unfold stepRew
+  simp only
+  split_ifs with hemp
+  · rfl
+  cases ho : o.getD s .prob with
+  | prob =>
+    simp only
+    have e1 := List.foldl_ext (fun acc t => acc + v.er.getD t.tgt 0 * t.p)
+      (fun acc t => acc + w.er.getD t.tgt 0 * t.p) (rewards.getD s 0) (l := nodes.getD s [])
+      (fun a t ht => by rw [her t ht])
+    have e2 := List.foldl_ext (fun acc t => acc + v.ermr.getD t.tgt 0 * t.p)
+      (fun acc t => acc + w.ermr.getD t.tgt 0 * t.p) (rewards.getD s 0) (l := nodes.getD s [])
+      (fun a t ht => by rw [hermr t ht])
+    have e3 := List.foldl_ext (fun acc t => acc + v.pmr.getD t.tgt 0 * t.p)
+      (fun acc t => acc + w.pmr.getD t.tgt 0 * t.p) 0 (l := nodes.getD s [])
+      (fun a t ht => by rw [hpmr t ht])
+    rw [e1, e2, e3]
+  | p1 =>
+    simp only
+    rw [List.foldl_ext _ (fun (acc : K × Option (Tr K)) t =>
+        if w.er.getD t.tgt 0 ≥ acc.1 then (w.er.getD t.tgt 0, some t) else acc) _
+        (fun a t ht => by rw [her t ht])]
+    cases hsel : ((nodes.getD s []).foldl (fun (acc : K × Option (Tr K)) t =>
+        if w.er.getD t.tgt 0 ≥ acc.1 then (w.er.getD t.tgt 0, some t) else acc) (0, none)).2 with
+    | none => rfl
+    | some t =>
+      simp only
+      rcases p1_sel_mem w.er _ _ t hsel with h1 | h1
+      · cases h1
+      · rw [hermr t h1, hpmr t h1]
+  | p2 =>
+    simp only
+    cases hrow : nodes.getD s [] with
+    | nil => rfl
+    | cons t0 rest =>
+      simp only
+      rw [hrow] at her hermr hpmr
+      rw [List.foldl_ext _ (fun (acc : K × Tr K) t =>
+        if w.er.getD t.tgt 0 ≤ acc.1 then (w.er.getD t.tgt 0, t) else acc) _
+        (fun a t ht => by rw [her t ht]), her t0 List.mem_cons_self]
+      have hp2 : p2RewMinReach (rewards.getD s 0) v.ermr (t0 :: rest)
+            (worstStratFrom rnd (rnd 1) reach (t0 :: rest)) =
+          p2RewMinReach (rewards.getD s 0) w.ermr (t0 :: rest)
+            (worstStratFrom rnd (rnd 1) reach (t0 :: rest)) := by
+        unfold p2RewMinReach
+        cases hf : (t0 :: rest).filter
+            (fun t => (worstStratFrom rnd (rnd 1) reach (t0 :: rest)).contains t.act) with
+        | nil => rfl
+        | cons u us =>
+          simp only
+          have hsub : ∀ t ∈ u :: us, t ∈ t0 :: rest := by
+            intro t ht; rw [← hf] at ht; exact (List.mem_filter.mp ht).1
+          rw [List.foldl_ext _ (fun m t => if w.ermr.getD t.tgt 0 < m then w.ermr.getD t.tgt 0 else m) _
+            (fun a t ht => by rw [hermr t (hsub t ht)]), hermr u (hsub u List.mem_cons_self)]
+      rw [hp2]
+      have hmem : ((t0 :: rest).foldl (fun (acc : K × Tr K) t =>
+          if w.er.getD t.tgt 0 ≤ acc.1 then (w.er.getD t.tgt 0, t) else acc)
+          (w.er.getD t0.tgt 0, t0)).2 ∈ t0 :: rest := by
+        rcases p2_sel_mem w.er (t0 :: rest) (w.er.getD t0.tgt 0, t0) with h1 | h1
+        · rw [h1]; exact List.mem_cons_self
+        · exact h1
+      rw [hpmr _ hmem]
+
+
+/-- invariant principle for one sweep of the reward loop, where the invariant may mention the
+states still to be processed and the running `diff` -/
+theorem foldRew_inv_list (P : List Nat → RewVecs K × K → Prop)
+    (hstep : ∀ s l acc x, P (s :: l) acc → stepRew rnd o rewards nodes reach acc.1 s = .ok x →
+      P l (updRew acc.1 s x, updDiff acc.1 acc.2 s x)) :
+    ∀ (l : List Nat) (acc r : RewVecs K × K), P l acc →
+      l.foldlM (rewBody rnd o rewards nodes reach) acc = .ok r → P [] r := by
+  intro l
+  induction l with
+  | nil =>
+    intro acc r h hr
+    rw [List.foldlM_nil] at hr
+    cases hr; exact h
+  | cons s l ih =>
+    intro acc r h hr
+    rw [List.foldlM_cons] at hr
+    cases hb : rewBody rnd o rewards nodes reach acc s with
+    | error e => rw [hb] at hr; cases hr
+    | ok acc' =>
+      rw [hb] at hr
+      unfold rewBody at hb
+      cases hst : stepRew rnd o rewards nodes reach acc.1 s with
+      | error e => rw [hst] at hb; cases hb
+      | ok x =>
+        rw [hst] at hb
+        cases hb
+        exact ih _ r (hstep s l acc x h hst) hr
+
+/-- all three tracked vectors have length `n` -/
+def Sz (n : Nat) (v : RewVecs K) : Prop := v.er.size = n ∧ v.ermr.size = n ∧ v.pmr.size = n
+
+theorem Sz_updRew {n : Nat} {v : RewVecs K} (h : Sz n v) (s : Nat) (x : K × K × K) :
+    Sz n (updRew v s x) := by
+  simpa [Sz, updRew] using h
+
+theorem val_updRew {n : Nat} {v : RewVecs K} (h : Sz n v) {s : Nat} (hs : s < n) (x : K × K × K)
+    (j : Nat) : val (updRew v s x) j = if s = j then x else val v j := by
+  obtain ⟨h1, h2, h3⟩ := h
+  unfold val updRew
+  simp only [getD_setIfInBounds, h1, h2, h3, hs, and_true]
+  split_ifs <;> rfl
+
+/-- `w` and `v` carry the same values on the states of `D` (below `n`) -/
+def AgreeOn (n : Nat) (D : Nat → Prop) (w v : RewVecs K) : Prop :=
+  ∀ j < n, D j → val w j = val v j
+
+variable (rnd o rewards nodes reach) in
+/-- the values of the states in `D` are settled: re-evaluating such a state from any vectors that
+agree with `v` on `D` reproduces its value in `v` -/
+def Stab (n : Nat) (D : Nat → Prop) (v : RewVecs K) : Prop :=
+  ∀ s < n, D s → ∀ w, AgreeOn n D w v →
+    stepRew rnd o rewards nodes reach w s = .ok (val v s)
+
+/-- one sweep keeps the settled states and settles every state all of whose successors were
+settled -/
+theorem stab_sweep {n : Nat} (hn : o.size = n) {D D' : Nat → Prop} {v : RewVecs K} (hsz : Sz n v)
+    (hD : Stab rnd o rewards nodes reach n D v) (hsub : ∀ s, D s → D' s)
+    (hdep : ∀ s < n, D' s → ¬ D s → ∀ t ∈ nodes.getD s [], t.tgt < n ∧ D t.tgt)
+    {r : RewVecs K × K} (hsw : sweepRew rnd o rewards nodes reach v = .ok r) :
+    Sz n r.1 ∧ Stab rnd o rewards nodes reach n D' r.1 := by
+  rw [sweepRew_eq, hn] at hsw
+  have key := foldRew_inv_list (rnd := rnd) (o := o) (rewards := rewards) (nodes := nodes)
+    (reach := reach)
+    (fun l acc => Sz n acc.1 ∧ (∀ s ∈ l, s < n) ∧ AgreeOn n D acc.1 v ∧
+      ∀ s < n, D' s → ¬ D s → s ∉ l → ∀ w', AgreeOn n D w' v →
+        stepRew rnd o rewards nodes reach w' s = .ok (val acc.1 s)) ?_ (List.range n) (v, 0) r
+    ⟨hsz, fun s hs => List.mem_range.mp hs, fun j _ _ => rfl,
+      fun s hs _ _ hnot => absurd (List.mem_range.mpr hs) hnot⟩ hsw
+  · obtain ⟨h1, _, h3, h4⟩ := key
+    refine ⟨h1, fun s hs hDs w hw => ?_⟩
+    have hw' : AgreeOn n D w v := fun j hj hDj => (hw j hj (hsub j hDj)).trans (h3 j hj hDj)
+    by_cases hds : D s
+    · rw [hD s hs hds w hw', h3 s hs hds]
+    · exact h4 s hs hDs hds List.not_mem_nil w hw'
+  · intro s l acc x ⟨h1, h2, h3, h4⟩ hx
+    have hs : s < n := h2 s List.mem_cons_self
+    simp only
+    refine ⟨Sz_updRew h1 s x, fun s' hs' => h2 s' (List.mem_cons_of_mem _ hs'), ?_, ?_⟩
+    · intro j hj hDj
+      rw [val_updRew h1 hs]
+      split_ifs with hsj
+      · subst hsj
+        rw [hD s hs hDj acc.1 h3] at hx
+        exact (Except.ok.inj hx).symm
+      · exact h3 j hj hDj
+    · intro s' hs' hD's' hnD hnot w' hw'
+      rw [val_updRew h1 hs]
+      split_ifs with hsj
+      · subst hsj
+        rw [← hx]
+        apply stepRew_congr
+        intro t ht
+        obtain ⟨htn, hDt⟩ := hdep s hs hD's' hnD t ht
+        rw [hw' _ htn hDt, h3 _ htn hDt]
+      · exact h4 s' hs' hD's' hnD (fun hmem => by
+          rcases List.mem_cons.mp hmem with h | h
+          · exact hsj h.symm
+          · exact hnot h) w' hw'
+
+/-- once every state is settled, a sweep reports `diff = 0` -/
+theorem stab_all_sweep {n : Nat} (hn : o.size = n) {D : Nat → Prop} (hall : ∀ s < n, D s)
+    {v : RewVecs K} (hsz : Sz n v) (hD : Stab rnd o rewards nodes reach n D v)
+    {r : RewVecs K × K} (hsw : sweepRew rnd o rewards nodes reach v = .ok r) : r.2 = 0 := by
+  rw [sweepRew_eq, hn] at hsw
+  have key := foldRew_inv_list (rnd := rnd) (o := o) (rewards := rewards) (nodes := nodes)
+    (reach := reach)
+    (fun l acc => Sz n acc.1 ∧ (∀ s ∈ l, s < n) ∧ AgreeOn n D acc.1 v ∧ acc.2 = 0) ?_
+    (List.range n) (v, 0) r
+    ⟨hsz, fun s hs => List.mem_range.mp hs, fun j _ _ => rfl, rfl⟩ hsw
+  · exact key.2.2.2
+  · intro s l acc x ⟨h1, h2, h3, h4⟩ hx
+    have hs : s < n := h2 s List.mem_cons_self
+    rw [hD s hs (hall s hs) acc.1 h3, ← h3 s hs (hall s hs)] at hx
+    have hx' := (Except.ok.inj hx).symm
+    subst hx'
+    simp only
+    refine ⟨Sz_updRew h1 s _, fun s' hs' => h2 s' (List.mem_cons_of_mem _ hs'), ?_, ?_⟩
+    · intro j hj hDj
+      rw [val_updRew h1 hs]
+      split_ifs with hsj
+      · subst hsj; exact h3 s hs hDj
+      · exact h3 j hj hDj
+    · simp [updDiff, val, max3, absv, h4]
+
+theorem viRew_exit (thr : K) (fuel : Nat) (diff : K) (v : RewVecs K) (i : Nat)
+    (h : ¬ diff > thr) : viRew rnd o rewards nodes reach thr fuel diff v i = .ok (v, i) := by
+  cases fuel <;> (unfold viRew; rw [if_neg h])
+
+/-- a probabilistic state whose only transition is a self-loop of probability 1 and whose reward
+is 0 keeps its three values -/
+theorem stepRew_absorbing (s : Nat) (ho : o.getD s .prob = .prob) (hr : rewards.getD s 0 = 0)
+    (t : Tr K) (hrow : nodes.getD s [] = [t]) (ht : t.tgt = s) (hp : t.p = 1) (w : RewVecs K) :
+    stepRew rnd o rewards nodes reach w s = .ok (val w s) := by
+  unfold stepRew
+  simp [hrow, ho, hr, ht, hp, val]
+
+
+/-- the reward loop on a ranked (acyclic apart from absorbing states) node list: from a state of
+the loop in which the states `Abs s ∨ rk s < k` are settled, the loop exits after at most
+`R + 2 - k` further sweeps -/
+theorem viRew_ranked_aux {n : Nat} (hn : o.size = n) (Abs : Nat → Prop) (rk : Nat → Nat) (R : Nat)
+    (hR : ∀ s < n, rk s ≤ R)
+    (hrank : ∀ s < n, ¬ Abs s → ∀ t ∈ nodes.getD s [], t.tgt < n ∧ (Abs t.tgt ∨ rk t.tgt < rk s))
+    (hr : ∀ s, 0 ≤ rewards.getD s 0)
+    (hp : ∀ s, o.getD s .prob = .prob → ∀ t ∈ nodes.getD s [], 0 ≤ t.p)
+    (thr : K) (hthr : 0 ≤ thr) (fuel : Nat) :
+    ∀ (k : Nat) (diff : K) (v : RewVecs K) (i : Nat), k ≤ R + 1 → R + 1 - k < fuel → Sz n v →
+      (∀ j, 0 ≤ v.er.getD j 0) →
+      Stab rnd o rewards nodes reach n (fun s => Abs s ∨ rk s < k) v →
+      ∃ r, viRew rnd o rewards nodes reach thr fuel diff v i = .ok r ∧ r.2 ≤ i + (R + 2 - k) := by
+  induction fuel with
+  | zero => intro k diff v i _ h; omega
+  | succ fuel ih =>
+    intro k diff v i hk hfuel hsz hv hst
+    by_cases hd : diff > thr
+    · obtain ⟨r', hs', hv'⟩ := foldRew_total (rnd := rnd) (o := o) (rewards := rewards)
+        (nodes := nodes) (reach := reach) (fun v => ∀ j, 0 ≤ v.er.getD j 0) (List.range o.size)
+        (fun v s _ hv => by
+          obtain ⟨x, hx, hx0⟩ := stepRew_ok_nonneg rnd o rewards nodes reach s (hr s) (hp s) v hv
+          exact ⟨x, hx, updRew_er_nonneg v s x hx0 hv⟩) (v, 0) hv
+      rw [← sweepRew_eq] at hs'
+      unfold viRew
+      rw [if_pos hd]
+      simp only [bind, Except.bind, hs']
+      by_cases hkR : k = R + 1
+      · have hz := stab_all_sweep hn (D := fun s => Abs s ∨ rk s < k)
+          (fun s hs => Or.inr (by have := hR s hs; omega)) hsz hst hs'
+        rw [hz, viRew_exit thr fuel 0 r'.1 (i + 1) (not_lt.mpr hthr)]
+        exact ⟨_, rfl, by simp only; omega⟩
+      · obtain ⟨hsz', hst'⟩ := stab_sweep hn (D' := fun s => Abs s ∨ rk s < k + 1) hsz hst
+          (fun s h => h.elim Or.inl (fun h => Or.inr (by omega)))
+          (fun s hs hD' hnD t ht => by
+            have hna : ¬ Abs s := fun h => hnD (Or.inl h)
+            have hks : ¬ rk s < k := fun h => hnD (Or.inr h)
+            obtain ⟨h1, h2⟩ := hrank s hs hna t ht
+            refine ⟨h1, h2.elim Or.inl (fun h => Or.inr ?_)⟩
+            rcases hD' with h' | h'
+            · exact absurd h' hna
+            · omega) hs'
+        obtain ⟨r, hr1, hr2⟩ := ih (k + 1) r'.2 r'.1 (i + 1) (by omega) (by omega) hsz' hv' hst'
+        exact ⟨r, hr1, by omega⟩
+    · rw [viRew_exit thr _ diff v i hd]
+      exact ⟨_, rfl, by simp only; omega⟩
+
+/-- the reward loop terminates within `R + 2` sweeps on a node list that is acyclic apart from
+absorbing states, `R` being the maximal rank -/
+theorem viRew_ranked {n : Nat} (hn : o.size = n) (Abs : Nat → Prop) (rk : Nat → Nat) (R : Nat)
+    (hR : ∀ s < n, rk s ≤ R)
+    (habs : ∀ s < n, Abs s → ∀ w, stepRew rnd o rewards nodes reach w s = .ok (val w s))
+    (hrank : ∀ s < n, ¬ Abs s → ∀ t ∈ nodes.getD s [], t.tgt < n ∧ (Abs t.tgt ∨ rk t.tgt < rk s))
+    (hr : ∀ s, 0 ≤ rewards.getD s 0)
+    (hp : ∀ s, o.getD s .prob = .prob → ∀ t ∈ nodes.getD s [], 0 ≤ t.p)
+    (thr : K) (hthr : 0 ≤ thr) (fuel : Nat) (hfuel : R + 2 ≤ fuel) (diff : K) (v : RewVecs K)
+    (i : Nat) (hsz : Sz n v) (hv : ∀ j, 0 ≤ v.er.getD j 0) :
+    ∃ r, viRew rnd o rewards nodes reach thr fuel diff v i = .ok r ∧ r.2 ≤ i + (R + 2) := by
+  refine viRew_ranked_aux hn Abs rk R hR hrank hr hp thr hthr fuel 0 diff v i (by omega) (by omega)
+    hsz hv ?_
+  intro s hs hD w hw
+  have ha : Abs s := hD.elim id (fun h => absurd h (Nat.not_lt_zero _))
+  rw [habs s hs ha w, hw s hs hD]
+
+
+end Ranked
+
+section Pipeline2
+variable {rnd : K → Int} {thr : K} {fuel : Nat} {prune : Bool} {g : Game K}
+
+/-- conditioning creates no new targets -/
+theorem condition_tgt_mem (hg : Shape g) {strat : Array Strat} {reach : Array K}
+    {nodes : Array (List (Tr K))} (h : condition prune g strat reach = .ok nodes) :
+    ∀ s, ∀ t ∈ nodes.getD s [], ∃ t' ∈ g.tl.getD s [], t'.tgt = t.tgt := by
+  intro s t ht
+  cases prune with
+  | false =>
+    rw [condition_false_eq] at h
+    cases h
+    rw [pruneReachability_getD] at ht
+    cases ho : g.owners.getD s .prob <;> rw [ho] at ht <;> simp only at ht
+    · exact ⟨t, ht, rfl⟩
+    · exact ⟨t, (List.mem_filter.mp ht).1, rfl⟩
+    · exact ⟨t, ht, rfl⟩
+  | true =>
+    rcases (condition_spec hg h).2 s with hrow | ⟨hnil, _, _⟩
+    · rw [hrow] at ht
+      cases ho : g.owners.getD s .prob with
+      | p2 => rw [condRow_p2 ho] at ht; exact ⟨t, ht, rfl⟩
+      | p1 =>
+        rw [condRow_p1 ho] at ht
+        exact ⟨t, (List.mem_filter.mp (List.mem_filter.mp ht).1).1, rfl⟩
+      | prob =>
+        rw [condRow_prob ho] at ht
+        unfold condProb at ht
+        simp only at ht
+        split_ifs at ht
+        · exact ⟨t, ht, rfl⟩
+        · obtain ⟨t', ht', rfl⟩ := List.mem_map.mp ht
+          exact ⟨t', (List.mem_filter.mp ht').1, rfl⟩
+    · rw [hnil] at ht; exact absurd ht List.not_mem_nil
+
+theorem solve_of_parts {ro : ReachOut K} {nodes : Array (List (Tr K))} {v : RewVecs K} {j : Nat}
+    (hro : solveReach rnd thr fuel prune g = .ok ro)
+    (hcond : condition prune g ro.strat ro.probs = .ok nodes)
+    (hvi : viRew rnd g.owners g.rewards nodes ro.probs thr fuel 1
+      { er := g.rewards, ermr := g.rewards, pmr := ro.probs } 0 = .ok (v, j)) :
+    solve rnd thr fuel prune g =
+      .ok { finalStrat := rewardStrategies rnd g.owners nodes v.er, reachStrat := ro.strat,
+            rewards := v.er, probs := ro.probs, itReach := ro.iters, itRew := j,
+            probMinRew := v.pmr, rewMinReach := v.ermr, nodes := nodes } := by
+  unfold solve
+  rw [hro]
+  simp only [bind, Except.bind]
+  rw [hcond]
+  simp only
+  rw [hvi]
+  rfl
+
+end Pipeline2
 
 end CR.Term
